@@ -107,6 +107,37 @@ class ContractsBridge:
         return [("true", vopaque(c + "(" + ", ".join(tok(a) for a in args) + ")"))]
 
 
+def bincode_bridge_facts(light):
+    """the bincode `Bridge` wrapper: which options and which reader it uses, and that it only delegates
+    -> list of (fact, holds, detail)"""
+    facts = []
+
+    def calls(fname):
+        m = re.search(r"^fn bridge::<impl at crux_core/src/bridge/mod\.rs:[\d: ]+>::" + fname + r"\([^\n]*\n(.*?)\n}\n", light, re.M | re.S)
+        if not m:
+            return None
+        return [c for c in re.findall(r"^\s+_\d+ = ([^\n]*?) -> \[return", m.group(1), re.M)]
+
+    opt = calls("bincode_options")
+    names = [re.sub(r"\(.*", "", c).split("::")[-1] for c in (opt or [])]
+    facts.append(("the bridge's bincode options are DefaultOptions with fixed-width integers and trailing bytes allowed, nothing else (no size limit)",
+                  names == ["new", "with_fixint_encoding", "allow_trailing_bytes"], str(names)))
+    want_ty = "WithOtherTrailing<WithOtherIntEncoding<DefaultOptions, FixintEncoding>, AllowTrailing>"
+    for fname, inner in (("process_event", "process_event"), ("handle_response", "handle_response")):
+        cs = calls(fname)
+        if cs is None:
+            facts.append((f"Bridge::{fname} found", False, "not found"))
+            continue
+        short = [re.sub(r"::<.*", "", re.sub(r"\(.*", "", c)) for c in cs]
+        shape = (len(cs) == 7 and "from_residual" in cs[6] and "bincode_options" in cs[0]
+                 and cs[1].startswith("bincode::Deserializer::<SliceReader<'_>, " + want_ty + ">::from_slice(copy _")
+                 and cs[2].startswith("Vec::<u8>::new(") and cs[3].startswith("bincode::Serializer::<&mut Vec<u8>, " + want_ty + ">::new(")
+                 and cs[4].startswith("BridgeWithSerializer::<A>::" + inner + "::<") and "as Try>::branch" in cs[5])
+        facts.append((f"Bridge::{fname} decodes the shell's bytes with a slice reader and those options, encodes the requests with the same options, and only delegates to BridgeWithSerializer::{inner}",
+                      bool(shape), " | ".join(short)[:240]))
+    return facts
+
+
 def calls_of(notes):
     return [n[1:] for n in notes if n[0] == "call"]
 
@@ -257,6 +288,20 @@ def run_property(prop, cfg, tier, known, only=None):
             sample["encoder_gap"] = f"{type(u).__name__}: {u}"
         res["samples"].append(sample)
         say(f"  [{unit:>22}] paths={sample.get('paths')} obligations={len(sample['queries'])}")
+
+        bsample = {"unit": "bincode_bridge", "what": "the bincode Bridge wrapper around BridgeWithSerializer", "queries": []}
+        for fact, holds, detail in bincode_bridge_facts(mir):
+            res["obligations"] += 1
+            res["queries"] += 1
+            res["decided"] += 1
+            bsample["queries"].append({"obligation": fact, "holds": holds, "detail": detail})
+            if holds:
+                res["discharged"] += 1
+                witnesses.add("bincode_bridge: " + fact[:80])
+            else:
+                failed.append("bincode_bridge: " + fact + " [" + detail[:120] + "]")
+        res["samples"].append(bsample)
+        say(f"  [{'bincode_bridge':>22}] facts={len(bsample['queries'])}")
 
         dev, n = native_scenarios(binp)
         res["validated_inputs"] = n
